@@ -202,7 +202,24 @@ def run(tier):
                 c[where] = {alias: spec}
                 cases.append(c)
                 meta.append(('shadow-value', where, None))
+    # the LAYOUT of a parameter list is not part of the parameter names: the same program with blanks around the commas and inside the
+    # parentheses binds the same arguments (compared with its own compact spelling)
+    layout_base = len(cases)
+    body = "    systemLog('a=' + systemType(a) + ' b=' + systemType(b) + ' c=' + systemType(c))\n    return arrayNew(a, b, c)\nendfunction\n" \
+           "a = 'GA'\nb = 'GB'\nreturn arrayNew(ff(1), ff(1, 2), ff(1, 2, 3), ff(1, 2, 3, 4))\n"
+    for header in ('function ff(a,b,c):', 'function ff(a, b, c):', 'function ff(a , b , c):', 'function ff( a  ,  b  ,  c ):', 'function ff(a\t,\tb,c ):',
+                   'function ff(a, b, c...):', 'function ff(a , b , c...):', 'function ff( a,b ,c... ):'):
+        cases.append({'text': header + '\n' + body, 'globals': {}, 'max': 500})
+        meta.append(('layout', '...' in header, None))
     impl = core.run_impl('run_script', cases)
+    for variadic in (False, True):
+        group = [i for i in range(layout_base, len(cases)) if meta[i][1] == variadic]
+        for i in group[1:]:
+            if any(impl[i].get(k) != impl[group[0]].get(k) for k in ('res', 'rt', 'log')):
+                chk.oracle_fail.append({'class': 'parameter-list-layout-changes-the-binding', 'source': cases[i]['text'],
+                                        'compact_spelling': cases[group[0]]['text'].split('\n')[0],
+                                        'expected': {k: impl[group[0]].get(k) for k in ('res', 'rt', 'log')},
+                                        'got': {k: impl[i].get(k) for k in ('res', 'rt', 'log', 'host', 'parse')}})
 
     dist, nontrivial, skipped, timeouts = {}, set(), 0, 0
     for i, (m, res) in enumerate(zip(meta, impl)):
@@ -218,6 +235,8 @@ def run(tier):
             continue
         if 'host' in res:
             chk.oracle_fail.append({'class': 'host-exception', **info, 'got': res})
+            continue
+        if tag == 'layout':
             continue
         if tag == 'shadow-value':
             if res.get('res') != ['null']:
